@@ -87,16 +87,25 @@ def build(case):
             factors.append(NO(Mul(*ops)))
         else:
             factors.extend(ops)
-    distinct = sorted(set(names))
-    coeff = NonSymmetricTensor("X", tuple(idx[n] for n in distinct))
+    # free (target) indices: occur on exactly one operator and not on the
+    # coefficient tensor; all other indices are summed and sit on the tensor
+    free = [n for n in case.get("free", []) if names.count(n) == 1]
+    distinct = sorted(set(names) - set(free))
+    coeff = NonSymmetricTensor("X", tuple(idx[n] for n in distinct)) if distinct else S.One
     return idx, distinct, coeff, Mul(coeff, *factors)
 
 
-def expected(case, distinct, idx, model):
+def free_names(case):
+    names = [n for grp in case["groups"] for _, n in grp]
+    return sorted({n for n in case.get("free", []) if names.count(n) == 1})
+
+
+def expected(case, distinct, idx, model, target_asg=None):
     total = Fraction(0)
     ranges = [index_range(idx[n], ORBS) for n in distinct]
     for combo in itertools.product(*ranges):
         asg = dict(zip(distinct, combo))
+        asg.update(target_asg or {})
         sign = 1
         flat = []
         for grp, no in zip(case["groups"], case["no"]):
@@ -107,7 +116,7 @@ def expected(case, distinct, idx, model):
             flat.extend(ops)
         v = vev_explicit(flat)
         if v:
-            total += sign * v * model.nonsym("X", [asg[n] for n in distinct])
+            total += sign * v * (model.nonsym("X", [asg[n] for n in distinct]) if distinct else 1)
     return total
 
 
@@ -124,6 +133,17 @@ def wicks_cases(tier, seed):
             yield {"groups": [[[k, n] for k, n in zip(kinds, names)]], "no": [False]}
     yield {"groups": [[["Fd", "i"], ["F", "a"]], [["Fd", "p"], ["F", "q"]], [["Fd", "a"], ["F", "i"]]],
            "no": [False, False, False], "deltas": True}
+    # free indices: bare strings, a diagonal operator between hole states, a
+    # free general index contracted with a summed general index
+    for deltas in (False, True):
+        for k1, n1, k2, n2 in (("Fd", "p", "F", "q"), ("F", "p", "Fd", "q"), ("Fd", "i", "F", "q"),
+                               ("F", "a", "Fd", "p")):
+            yield {"groups": [[[k1, n1], [k2, n2]]], "no": [False], "free": [n1, n2], "deltas": deltas}
+            yield {"groups": [[[k1, n1], [k2, n2]]], "no": [False], "free": [n1], "deltas": deltas}
+        yield {"groups": [[["Fd", "i"], ["F", "p"], ["Fd", "p"], ["F", "j"]]], "no": [False],
+               "free": ["i", "j"], "deltas": deltas}
+        yield {"groups": [[["Fd", "i"], ["F", "a"]], [["Fd", "p"], ["F", "p"]], [["Fd", "a"], ["F", "j"]]],
+               "no": [False, False, False], "free": ["i", "j"], "deltas": deltas}
     n = 120 if tier == "quick" else 3000
     for _ in range(n):
         ngroups = rng.randint(1, 3)
@@ -155,7 +175,11 @@ def wicks_cases(tier, seed):
             continue
         if any(no and len({tuple(o) for o in g}) != len(g) for g, no in zip(groups, nos)):
             continue
-        yield {"groups": groups, "no": nos, "deltas": rng.random() < 0.3}
+        case = {"groups": groups, "no": nos, "deltas": rng.random() < 0.4}
+        if rng.random() < 0.5:
+            # some of the indices are free (target) indices of the product
+            case["free"] = rng.sample(POOL, rng.randint(1, 3))
+        yield case
 
 
 def wicks_check(case):
@@ -164,11 +188,15 @@ def wicks_check(case):
     if expr is S.Zero:
         return True, "vanishes on construction (Pauli)"
     # an NO group with a repeated operator vanishes identically in sympy
-    exp = expected(case, distinct, idx, model)
     res = wicks(expr, simplify_kronecker_deltas=bool(case.get("deltas")))
-    got = evaluate(res, {}, model)
-    if got != exp:
-        return False, f"wicks({expr}) = {res}: value {got}, explicit Fock-space value {exp}"
+    free = free_names(case)
+    for combo in itertools.product(*[index_range(idx[n], ORBS) for n in free]):
+        tasg = dict(zip(free, combo))
+        exp = expected(case, distinct, idx, model, tasg)
+        got = evaluate(res, {idx[n]: o for n, o in tasg.items()}, model)
+        if got != exp:
+            return False, (f"wicks({expr}, simplify_kronecker_deltas={bool(case.get('deltas'))}) = {res}: "
+                           f"value {got}, explicit Fock-space value {exp} at {tasg}")
     return True, str(res)
 
 
@@ -281,7 +309,7 @@ CHECKS = {
     "wicks.value": {
         "function": "adcgen.func:_contract_operator_string", "cases": wicks_cases,
         "check": wicks_check,
-        "bound": "products of <= 6 operators in <= 3 groups (bare or normal ordered), indices from a pool of 6 (occ/virt/general, repeats allowed), one coefficient tensor over all indices; explicit Fock-space evaluation, 2 occ + 2 virt spin orbitals"},
+        "bound": "products of <= 6 operators in <= 3 groups (bare or normal ordered), indices from a pool of 6 (occ/virt/general, repeats allowed), one coefficient tensor over all summed indices, optional free (target) indices on single operators; explicit Fock-space evaluation, 2 occ + 2 virt spin orbitals"},
     "Rules.apply.filter": {
         "function": "adcgen.rules:Rules.apply", "cases": rules_cases,
         "check": rules_check,
